@@ -8,10 +8,12 @@ EXTENDS Lifecycle, Json, TLC
 CONSTANTS Sources,          \* abstract source ids (rendered by tools/props/c01.py)
           FlagChoices,      \* flag words to try (legal and illegal)
           FilterTargets,    \* types, or -1 all, -2 cache, -3 icache, -4 io
-          MaxFilterSteps
-VARIABLES src, slot, nf, flagged, done, hist
+          MaxFilterSteps,
+          BindChoices       \* CPU bindings the process may take before the load (indexes into a list rendered by c01.py; {} = never)
+VARIABLES src, slot, nf, flagged, done, hist,
+          bound             \* the binding taken (0 = the process keeps its own): what RESTRICT_TO_CPUBINDING will look at
 
-Init == /\ src \in Sources /\ slot = InitSlot /\ nf = 0 /\ flagged = FALSE /\ done = FALSE
+Init == /\ src \in Sources /\ slot = InitSlot /\ nf = 0 /\ flagged = FALSE /\ done = FALSE /\ bound = 0
         /\ hist = <<<<"src", src, 0, 0>>>>
 
 \* the relation of Lifecycle.tla determines the result uniquely: enumerate the outcomes and keep the one it accepts
@@ -27,7 +29,7 @@ SetFilterAct ==
            /\ slot' = s2
            /\ hist' = Append(hist, <<"filter", which, f, ret>>)
   /\ nf' = nf + 1
-  /\ UNCHANGED <<src, flagged, done>>
+  /\ UNCHANGED <<src, flagged, done, bound>>
 
 SetFlagsAct ==
   /\ ~done /\ ~flagged
@@ -36,15 +38,20 @@ SetFlagsAct ==
        /\ slot' = s2
        /\ hist' = Append(hist, <<"flags", f, ret, 0>>)
   /\ flagged' = TRUE
-  /\ UNCHANGED <<src, nf, done>>
+  /\ UNCHANGED <<src, nf, done, bound>>
 
 LoadAct == /\ ~done /\ done' = TRUE
            /\ hist' = Append(hist, <<"load", 0, 0, 0>>)
-           /\ UNCHANGED <<src, slot, nf, flagged>>
+           /\ UNCHANGED <<src, slot, nf, flagged, bound>>
 
-Next == SetFilterAct \/ SetFlagsAct \/ LoadAct
-Spec == Init /\ [][Next]_<<src, slot, nf, flagged, done, hist>>
-View == <<src, slot, nf, flagged, done>>
+\* the caller binds itself before loading (a topology that claims to be this system and asks for RESTRICT_TO_CPUBINDING is cut to it)
+BindAct == /\ ~done /\ bound = 0
+           /\ \E b \in BindChoices : bound' = b /\ hist' = Append(hist, <<"bind", b, 0, 0>>)
+           /\ UNCHANGED <<src, slot, nf, flagged, done>>
+
+Next == SetFilterAct \/ SetFlagsAct \/ LoadAct \/ BindAct
+Spec == Init /\ [][Next]_<<src, slot, nf, flagged, done, hist, bound>>
+View == <<src, slot, nf, flagged, done, bound>>
 
 \* consequences of the configuration relations (sanity of the model)
 FiltersSane ==
